@@ -25,8 +25,14 @@ def run_tests(wt):
             bad.add(name)
     return {t for t in STABLE if t in bad or t not in seen}, r.stdout.strip()[-200:]
 
+only = None
+for a in sys.argv[1:]:
+    if a.startswith('--only='):
+        only = a[7:].split(',')
 for pid in ids:
     for m in sorted(os.listdir(f'/tmp/seed/out_{pid}')):
+        if only and m not in only:
+            continue
         src = f'/tmp/seed/out_{pid}/{m}'
         if not os.path.isfile(f'{src}/patch.diff'):
             continue
@@ -50,17 +56,25 @@ for pid in ids:
         meta['demo_exit_without_patch'] = d0.returncode
         meta['confirmed'] = (not failed) and d1.returncode != 0 and d0.returncode == 0
         # 2. our checks on the mutated /repo
-        assert sh('git -C /repo status --short').stdout.strip() == '', '/repo not clean'
+        # target tree for the checks: /repo itself, or (EVAL_WT) a scratch worktree at /repo's HEAD when /repo is busy
+        tgt = os.environ.get('EVAL_WT', '/repo')
+        if tgt != '/repo':
+            sh(f"git -C {tgt} checkout -q --detach $(git -C /repo rev-parse HEAD)")
+        assert sh(f'git -C {tgt} status --short').stdout.strip() == '', f'{tgt} not clean'
         results = {}
         try:
-            ap = sh(f'git -C /repo apply {src}/patch.diff')
+            ap = sh(f'git -C {tgt} apply {src}/patch.diff')
             assert ap.returncode == 0, ap.stderr
             for chk in [pid] + extra_checks.get(tag, []):
-                r = sh(f'/verif/check {chk} --tier {tier}')
+                if tgt == '/repo':
+                    r = sh(f'/verif/check {chk} --tier {tier}')
+                else:
+                    r = sh(f'cd /verif && VERIF_OUT=/tmp/seed/evalout PYTHONPATH=/verif:{tgt}/src PYTHONDONTWRITEBYTECODE=1 TQDM_DISABLE=1 MPLBACKEND=Agg '
+                           f'OMP_NUM_THREADS=1 OPENBLAS_NUM_THREADS=1 /verif/.venv/bin/python -m symx.cli {chk} --tier {tier}')
                 lines = [l for l in r.stdout.splitlines() if l.startswith(('VIOLATION', 'KNOWN-FINDING', 'HARNESS-ERROR', '[' + chk))]
                 results[chk] = {'exit': r.returncode, 'lines': [l[:400] for l in lines[:8]]}
         finally:
-            sh('git -C /repo checkout -- .')
+            sh(f'git -C {tgt} checkout -- .')
         meta['checks'] = results
         meta['caught_by'] = [k for k, v in results.items() if v['exit'] == 1]
         meta['wall_s'] = round(time.time() - t0, 1)
